@@ -1,7 +1,8 @@
 """C03 — PASS means no admissible input violates the test (end to end).
 
-Obligations: translators T-panic (CallOutput.is_panic_of) and T-runtest (run_test / setup /
-run_target_function decision logic), Props/C03.vo (theorems over the regenerated Gen files), lint.
+Obligations: translators T-panic (CallOutput.is_panic_of), T-runtest (run_test / setup /
+run_target_function decision logic), T-copies (what Path.branch & co copy) and T-refine (the rules of
+solve.refine), Props/C03.vo (theorems over the regenerated Gen files), lint.
 Ties:
   L1  real CallOutput.is_panic_of / is_global_fail_set / CallContext.is_stuck vs the extracted model
       vs an independent python rendering of the spec (byte strings around the Panic encoding,
@@ -21,13 +22,14 @@ from harness import common, l3, pool
 from harness.common import Model
 
 PID = "C03"
-TRANSLATORS = ["T-panic", "T-runtest"]
+TRANSLATORS = ["T-panic", "T-runtest", "T-copies", "T-refine"]
 
 # Genuine defects of halmos w.r.t. C03 shown by this check on the unchanged tree (see final report).
 KNOWN = common.known_for("C03")  # entries live in /verif/known_findings.json
 
 ASSUMPTIONS = [
     "composition theorem C03_pass_sound: per-transaction completeness and soundness of exploration (C01/C02), query = path constraints (C11), truthful external solver, sound unsat-core cache (C16) and exact refinement (C04/C11) are Section hypotheses visible in the statement; 36-byte revert data concrete (documented caveat, shown necessary by C03_pass_sound_symbolic_code_refuted)",
+    "C03_sibling_paths_do_not_share_mutable_state and C03_refinement_is_the_evm_operation restate theorems proved for C20 / C11 (Proofs/IsolationProofs.v, Proofs/SmtTextProofs.v) over Gen/GenCopies.v and Gen/GenRefine.v; their need tables / operation semantics are the specifications of those properties",
     "every submitted assertion query has its answer in ctx.solver_outputs when the verdict is computed (thread pool semantics: C05/C17)",
     "the reference interpreter (coq/Spec/Evm.v, extracted) is the EVM oracle; concrete executions use the canonical ABI encoding of the arguments",
     "the extracted model and driver are faithful to the Coq definitions (extraction is trusted)",
@@ -235,6 +237,64 @@ def l1_tie(rep, m, tier, r):
     return len(cases) + len(trees)
 
 
+# ----------------------------------------------------------------------------- L1: solve.solve_end_to_end
+
+def impl_solve_e2e(ch, r0, v0, chg, r1, isr):
+    """the REAL solve_end_to_end (with the real check_unsat_cores, PathContext.refine and refine) over a stubbed
+    solve_low_level: first invocation answers (r0, model valid = v0), a second one (r1, valid) -> (answer code, #invocations)"""
+    import types
+
+    import z3
+
+    from halmos import solve as S
+    from halmos.sevm import SMTQuery
+
+    res = {0: z3.unsat, 1: z3.sat, 2: z3.unknown, 3: "err"}
+    code = {str(v): k for k, v in res.items()}
+    decl = ("(declare-fun f_evm_bvmul_256 ((_ BitVec 256) (_ BitVec 256)) (_ BitVec 256))" if chg else "(declare-fun f_other_256 ((_ BitVec 256) (_ BitVec 256)) (_ BitVec 256))")
+    q = SMTQuery(decl + "\n(assert true)\n", ["a1", "a2", "a3"])
+    sctx = S.SolvingContext(dump_dir=__import__("pathlib").Path("/nonexistent/verif-c03"), executor=None, unsat_cores=[["a9"], ["a1", "a3"]] if ch else [["a9"], ["a1", "a4"]])
+    ctx = S.PathContext(args=types.SimpleNamespace(verbose=0), path_id=7, solving_ctx=sctx, query=q, is_refined=bool(isr))
+    calls = []
+
+    def fake(c):
+        calls.append(c)
+        r, v = (r0, v0) if len(calls) == 1 else (r1, 1)
+        model = S.PotentialModel(model={}, is_valid=bool(v)) if r == 1 else None
+        return S.SolverOutput(res[r], 0, c.path_id, "f", model=model)
+
+    saved = S.solve_low_level
+    S.solve_low_level = fake
+    try:
+        out = S.solve_end_to_end(ctx)
+    finally:
+        S.solve_low_level = saved
+    if len(calls) == 2 and not (calls[1].is_refined and calls[1].query.smtlib != q.smtlib):
+        return ("second invocation not on a changed refined query", len(calls))
+    return code[str(out.result)], len(calls)
+
+
+def l1_solve_tie(rep, m):
+    """exhaustive: unsat-core hit x first answer x model validity x does refinement change the query x second answer x is_refined"""
+    import itertools
+
+    cases = [list(c) for c in itertools.product((0, 1), (0, 1, 2, 3), (0, 1), (0, 1), (0, 1, 2, 3), (0, 1))]
+    model = m.parallel_batch([("c03_solve_e2e", c) for c in cases]) if m else None
+    for i, c in enumerate(cases):
+        ch, r0, v0, chg, r1, isr = c
+        got, n = impl_solve_e2e(*c)
+        # spec: the answer is unsat only if a core is contained or the solver said unsat on (a refinement of) the query
+        truthful_unsat = bool(ch) or r0 == 0 or (r0 == 1 and not v0 and not isr and chg and r1 == 0)
+        case = {"l1": "solve_end_to_end", "core_hit": ch, "first": r0, "valid": v0, "refine_changes": chg, "second": r1, "is_refined": isr}
+        rep.case(case, nontrivial=True)
+        rep.count("l1_solve_e2e", f"answer={got}/invocations={n}")
+        if got == 0 and not truthful_unsat:
+            rep.fail("failing-input", f"solve_end_to_end answers unsat although no unsat core is contained and no solver invocation answered unsat: {case}", case=case, sig={"kind": "l1-solve-e2e-unsat"})
+        elif model is not None and (model[i] is None or model[i] != [got]):
+            rep.fail("broken-tie", f"solve_end_to_end: model {model[i]} vs implementation {got} on {case}", case={**case, "implementation": got, "model": model[i]})
+    return len(cases)
+
+
 # ----------------------------------------------------------------------------- L3
 
 def special_contracts():
@@ -276,6 +336,18 @@ def gen_l3_tasks(r, tier):
         opts += [[], ["--solver", "z3"], ["--storage-layout", "generic"], ["--solver", "z3", "--storage-layout", "generic"]][(i // 2) % 4]
         opts += ["--solver-timeout-assertion", "15s"]   # a [TIMEOUT] verdict is not a PASS; keeps hard mul/div queries bounded
         tasks.append({"desc": d, "options": opts, "code_opt": co, "seed": r.getrandbits(32), "family": "grammar", "limit": 100 if tier == "quick" else 200, "timeout": 200})
+    # directed families (c03_lib): a word re-read after a sibling branch pinned it, combinations of lengths of several
+    # dynamic parameters, special-case points of arithmetic operations reached through symbolic operands
+    grid = [(i, j, (i + j) % 3) for i in range(3) for j in range(3)]
+    if tier == "quick":
+        plans = [(None, [], [(1, 2, 1), (0, 1, 2)], ["mod", "sdiv", "mul"]), ("0x01", ["--solver", "z3"], [(1, 1, 0), grid[r.randrange(9)]], ["smod", "div"])]
+    else:
+        plans = [(L.CODE_OPTIONS[k % len(L.CODE_OPTIONS)], [[], ["--solver", "z3"], ["--storage-layout", "generic"]][k % 3], grid[3 * (k % 3):3 * (k % 3) + 3],
+                  ["div", "mod", "sdiv", "smod", "mul", None]) for k in range(9)]
+    for co, extra, combos, ops in plans:
+        d = L.gen_directed_contract(r, co, n_each=2 if tier == "quick" else 4, combos=combos, ops=ops)
+        tasks.append({"desc": d, "options": (["--panic-error-codes", co] if co else []) + extra + ["--solver-timeout-assertion", "15s"], "code_opt": co,
+                      "seed": r.getrandbits(32), "family": "directed", "limit": 100 if tier == "quick" else 200, "timeout": 200})
     for d, co, fam in special_contracts():
         for extra in ([], ["--solver", "z3"]) if tier != "quick" else ([],):
             tasks.append({"desc": d, "options": (["--panic-error-codes", co] if co else []) + extra, "code_opt": co, "seed": 1, "family": fam, "limit": 60})
@@ -356,7 +428,7 @@ def l3_tie(rep, m, tier, r):
                               sig={"kind": "clean-pass-with-violation", "family": fam, "outcome": v["outcome"].split(":")[0], "actions": sorted({a[0] for _, a in t["clauses"]})})
                 continue
             # model side: the extracted run_test on the predicted leaves must give halmos' exit code
-            if m is not None and status != "TIMEOUT" and "exitcode" in rec and task["family"] == "grammar":
+            if m is not None and status != "TIMEOUT" and "exitcode" in rec and task["family"] in ("grammar", "directed"):
                 mc = predicted_model_call(t, val["cands"][sig].get("feas"), codes)
                 if mc is not None:
                     calls.append(mc)
@@ -383,16 +455,16 @@ def run(rep, tier):
         else:
             m = Model(exe)
     r = common.rng(PID)
-    n1 = l1_tie(rep, m, tier, r)
+    n1 = l1_tie(rep, m, tier, r) + l1_solve_tie(rep, m)
     n3 = l3_tie(rep, m, tier, r)
     rep.coverage["traces_validated_against_impl"] = n1 + n3
     rep.coverage["known_findings_declared"] = [k["id"] for k in KNOWN]
     return rep.finish(
-        checker_cmd="make -C coq Props/C03.vo (coq_makefile, coqc 8.16.1) after regenerating coq/Gen/GenPanic.v from src/halmos/sevm.py and coq/Gen/GenRunTest.v from src/halmos/__main__.py",
+        checker_cmd="make -C coq Props/C03.vo (coq_makefile, coqc 8.16.1) after regenerating coq/Gen/GenPanic.v and GenCopies.v from src/halmos/sevm.py, GenRunTest.v from src/halmos/__main__.py and GenRefine.v from src/halmos/solve.py",
         trusted_base=common.TRUSTED_BASE_COMMON + ["the fabricated forge artifacts + stub forge (harness/l3.py) and the extracted reference interpreter coq/Spec/Evm.v as EVM oracle"],
         assumptions=ASSUMPTIONS,
         rule="L1 cases = (error kind, revert data as concrete/symbolic segments, code set): every length 0..40 of the Panic(1) encoding, one-bit/one-byte selector damage, 14 codes x 7 code sets, a symbolic segment at every offset, random byte strings; random call trees for is_global_fail_set. "
-             "L3 cases = (test function description, setUp storage, halmos options): tests `if (g) action; ...; STOP` with g from {eq const, lt/gt, add/sub/mul/xor/and/or relations, mul/div/mod/sdiv/smod, shifts, signed compares, bit tests, storage written by setUp, dynamic length guards, element/word guards} over static and dynamic parameters, actions {Panic(k) inside/outside the configured set, 35/37/68-byte near-panics, other selectors, DSTest.fail, revert, INVALID}; options: panic code sets x solver {yices, z3} x storage layout; "
+             "L3 cases = (test function description, setUp storage, halmos options): tests `if (g) action; ...; STOP` with g from {eq const, lt/gt, add/sub/mul/xor/and/or relations, mul/div/mod/sdiv/smod, shifts, signed compares, bit tests, storage written by setUp, dynamic length guards, element/word guards} over static and dynamic parameters, actions {Panic(k) inside/outside the configured set, 35/37/68-byte near-panics, other selectors, DSTest.fail, revert, INVALID}; options: panic code sets x solver {yices, z3} x storage layout; directed families: a calldata word / array element pinned by `== c` on a benign branch and read again on the sibling branch where the failure needs another value; tests with 2-3 dynamic parameters whose failure needs one combination of their lengths (all 9 index combinations in the thorough tier); failures at the special-case points of div / mod / sdiv / smod (zero divisor, MIN / -1) and of a wrapping mul, with symbolic operands; "
              "non-trivial = the oracle executed at least one candidate input on the reference interpreter; distinct by hash of (test, setUp, options)",
         partial="the theorem is a composition over named hypotheses (C01/C02/C11/C16/C04 are proved and tied by their own properties); the oracle can only exhibit violations among its candidates (z3 models of the guard + boundary set), it does not prove their absence",
     )
